@@ -1018,7 +1018,8 @@ Qed.
 
 (* closing a client connection from anywhere notifies its owner before the descriptor is released *)
 Lemma close_notifies_owner : forall s f o, Inv s -> active s f = true -> own s f = o -> is_job o = true ->
-  exists s', step maxfd reserved s (EClose f) = Some s' /             q s' = q s ++ [CHandler o; CComplete f] /\ closing s' f = true /\ fopen (tbl s') f = true.
+  exists s', step maxfd reserved s (EClose f) = Some s' /\
+             q s' = q s ++ [CHandler o; CComplete f] /\ closing s' f = true /\ fopen (tbl s') f = true.
 Proof.
   intros s f o I Ha Ho Hj. unfold step. rewrite Ha, Ho, Hj. cbn [andb].
   pose proof (i_act _ _ I f (fun x => x) Ha) as Hact. unfold act_ok in Hact. rewrite Ho in Hact.
@@ -1030,7 +1031,8 @@ Qed.
 (* when the client's close handler runs and the transaction is aborted, its server connection is released too *)
 Lemma owner_end_releases_server : forall s c r f, Inv s -> q s = CHandler (OCli c) :: r ->
   active s f = true -> own s f = OSrv c ->
-  exists s', step maxfd reserved s (ERun true) = Some s' /\ closing s' f = true /             q s' = r ++ [CComplete f].
+  exists s', step maxfd reserved s (ERun true) = Some s' /\ closing s' f = true /\
+             q s' = r ++ [CComplete f].
 Proof.
   intros s c r f I Hq Ha Ho. unfold step. rewrite Hq.
   pose proof (dequeue_handler_inv _ _ _ I Hq) as I1. unfold set_q in I1.
@@ -1092,7 +1094,9 @@ Proof.
 Qed.
 
 Lemma observe_quiescent : forall s, quiescent s ->
-  qo_leak (observe maxfd (init ninfra) s) = 0%Z /\ qo_kleak (observe maxfd (init ninfra) s) = 0%Z /  qo_acct (observe maxfd (init ninfra) s) = true /\ qo_idle (observe maxfd (init ninfra) s) = 0 /  qo_queue (observe maxfd (init ninfra) s) = 0.
+  qo_leak (observe maxfd (init ninfra) s) = 0%Z /\ qo_kleak (observe maxfd (init ninfra) s) = 0%Z /\
+  qo_acct (observe maxfd (init ninfra) s) = true /\ qo_idle (observe maxfd (init ninfra) s) = 0 /\
+  qo_queue (observe maxfd (init ninfra) s) = 0.
 Proof.
   intros s (Hq & Hop & Hk & Hc & Hn & Hb & Hp & Hpc).
   assert (Hext : forall i, i < maxfd -> fopen (tbl s) i = (i <? ninfra)).
@@ -1105,14 +1109,15 @@ Proof.
   { rewrite (count_ext maxfd _ (fopen (tbl s))) by (intros; apply Hk). exact C1. }
   assert (C3 : count_open maxfd (fun f => f <? ninfra) = ninfra) by now apply count_ltb.
   unfold observe. cbn [qo_leak qo_kleak qo_acct qo_idle qo_queue init tbl kern fnum].
-  rewrite C1, C2, C3, Hn, Hp, Hq. repeat split; try lia.
-  apply andb_true_iff. split; [lia|apply Nat.eqb_refl].
+  rewrite C1, C2, C3, Hn, Hp, Hq. rewrite Z.eqb_refl, Nat.eqb_refl. cbn [andb length].
+  repeat split; lia.
 Qed.
 
 (* the prediction printed by the runner: for EVERY list of transactions the model runs without a failed assertion
    and ends with no extra descriptor, consistent accounting, an empty pool and an empty call queue *)
 Lemma hist_prediction : forall seqmode txs,
-  exists o idle, hist_result maxfd ninfra reserved seqmode txs = Some (o, idle) /                 qo_leak o = 0%Z /\ qo_kleak o = 0%Z /\ qo_acct o = true /\ qo_idle o = 0 /\ qo_queue o = 0.
+  exists o idle, hist_result maxfd ninfra reserved seqmode txs = Some (o, idle) /\
+                 qo_leak o = 0%Z /\ qo_kleak o = 0%Z /\ qo_acct o = true /\ qo_idle o = 0 /\ qo_queue o = 0.
 Proof.
   intros seqmode txs. unfold hist_result. destruct seqmode.
   - pose proof (run_seq_inv txs (init ninfra) init_inv) as H.
@@ -1150,3 +1155,64 @@ Proof.
   unfold comm_close. destruct (closing s f); [discriminate|]. rewrite Ho. cbn [negb q hs tmo closing].
   rewrite !upd_same. auto.
 Qed.
+
+(* ------------------------------------------------------------------ statements over reachable states *)
+Section Reach.
+Variable maxfd : nat.
+Variable ninfra : nat.
+Variable reserved : Z.
+Hypothesis Hinfra : ninfra <= maxfd.
+
+Definition reachable (s : st) : Prop := exists evs, run maxfd reserved (init ninfra) evs = Some s.
+
+Lemma reach_inv : forall s, reachable s -> Inv maxfd ninfra s.
+Proof. intros s [evs H]. eapply reachable_inv; eauto. Qed.
+
+Lemma reach_step : forall s e, reachable s -> exists s', step maxfd reserved s e = Some s' /\ reachable s'.
+Proof.
+  intros s e [evs H]. pose proof (step_inv maxfd ninfra reserved Hinfra s e (reachable_inv _ _ _ Hinfra evs s H)) as Hok.
+  destruct (step maxfd reserved s e) as [s'|] eqn:E; [|contradiction].
+  exists s'. split; [reflexivity|]. exists (evs ++ [e]).
+  clear Hok. revert H. generalize (init ninfra). induction evs as [|x r IH]; intros s0 H; cbn [run app] in *.
+  - inversion H; subst. now rewrite E.
+  - destruct (step maxfd reserved s0 x); [now apply IH|discriminate].
+Qed.
+
+Lemma reach_quiescence : forall s, reachable s -> exists s', settle maxfd reserved s = Some s' /\ quiescent ninfra s'.
+Proof. intros s [evs H]. eapply quiescence; eauto. Qed.
+
+Lemma reach_no_orphans : forall s f, reachable s -> q s = [] -> fopen (tbl s) f = true ->
+  kern s f = true /\ closing s f = false /\
+  ((f < ninfra /\ own s f = OInfra) \/
+   (exists c, (own s f = OCli c \/ own s f = OSrv c) /\ hs s f = [own s f] /\ tmo s f = true /\ ~ In f (pool s)) \/
+   (own s f = OIdle /\ In f (pool s) /\ tmo s f = true /\ hs s f = [])).
+Proof. intros s f R. apply (no_orphans maxfd ninfra). now apply reach_inv. Qed.
+
+Lemma reach_one_descriptor_per_job : forall s f g, reachable s -> active s f = true -> active s g = true ->
+  own s f = own s g -> is_job (own s f) = true -> f = g.
+Proof. intros s f g R. apply (one_descriptor_per_job maxfd ninfra). now apply reach_inv. Qed.
+
+Lemma reach_close_notifies_owner : forall s f o, reachable s -> active s f = true -> own s f = o -> is_job o = true ->
+  exists s', step maxfd reserved s (EClose f) = Some s' /\
+             q s' = q s ++ [CHandler o; CComplete f] /\ closing s' f = true /\ fopen (tbl s') f = true.
+Proof. intros s f o R. apply (close_notifies_owner maxfd ninfra). now apply reach_inv. Qed.
+
+Lemma reach_owner_end_releases_server : forall s c r f, reachable s -> q s = CHandler (OCli c) :: r ->
+  active s f = true -> own s f = OSrv c ->
+  exists s', step maxfd reserved s (ERun true) = Some s' /\ closing s' f = true /\ q s' = r ++ [CComplete f].
+Proof. intros s c r f R. apply (owner_end_releases_server maxfd ninfra reserved Hinfra). now apply reach_inv. Qed.
+
+Lemma reach_push_refused : forall s c f, reachable s -> find_own maxfd s (OSrv c) = Some f ->
+  fd_usage_high maxfd reserved (fnum (tbl s)) = true ->
+  exists s', step maxfd reserved s (ESrvDone c true) = Some s' /\ pool s' = pool s /\ closing s' f = true.
+Proof. intros s c f R. apply (push_refused_when_fd_usage_high maxfd ninfra reserved Hinfra). now apply reach_inv. Qed.
+
+(* a pending comm_close_complete exists for exactly the descriptors being closed, so each close(2) happens once *)
+Lemma reach_close_once : forall s f, reachable s ->
+  ncomplete f (q s) = (if closing s f then 1 else 0) /\
+  (closing s f = true -> fopen (tbl s) f = true /\ hs s f = [] /\ tmo s f = false).
+Proof.
+  intros s f R. pose proof (reach_inv s R) as I. split; [apply (i_q _ _ _ _ I)|apply (i_closing _ _ _ _ I)].
+Qed.
+
+End Reach.
